@@ -39,19 +39,21 @@ def reshape_rechunk(inshape, outshape, inchunks, disallow_dimension_expansion=Fa
     mapper_in, one_dimensions = {}, []
 
     while ii >= 0 or oi >= 0:
-        if inshape[ii] == outshape[oi]:
+        if ii >= 0 and oi >= 0 and inshape[ii] == outshape[oi]:
             result_inchunks[ii] = inchunks[ii]
             result_outchunks[oi] = inchunks[ii]
             mapper_in[ii] = oi
             ii -= 1
             oi -= 1
             continue
-        din = inshape[ii]
-        dout = outshape[oi]
-        if din == 1:
+        # (one side may be used up: only axes of length 1 can be left over
+        # on the other side; index -1 must not wrap around to the last axis)
+        din = inshape[ii] if ii >= 0 else 1
+        dout = outshape[oi] if oi >= 0 else 1
+        if din == 1 and ii >= 0:
             result_inchunks[ii] = (1,)
             ii -= 1
-        elif dout == 1:
+        elif dout == 1 and oi >= 0:
             result_outchunks[oi] = (1,)
             one_dimensions.append(oi)
             oi -= 1
